@@ -202,6 +202,11 @@ func Observed(nd *node.Node, h uint64) string {
 
 // propose fills the node's mempool and runs the leader path.
 func (c *Chain) Propose(nd *node.Node, txs []node.MixTx, opName string) (*Proposal, bool) {
+	return c.ProposeVDF(nd, txs, opName, nil)
+}
+
+// ProposeVDF is Propose with a VDF result handed to ProduceProposal (nil = none).
+func (c *Chain) ProposeVDF(nd *node.Node, txs []node.MixTx, opName string, vdf *crypto.VDF) (*Proposal, bool) {
 	name := c.Names[nd]
 	for _, tx := range txs {
 		if err := nd.Submit(tx.Bytes); err != nil {
@@ -211,7 +216,7 @@ func (c *Chain) Propose(nd *node.Node, txs []node.MixTx, opName string) (*Propos
 		}
 	}
 	k := c.Gmp()
-	block, results, rc, err := nd.Propose()
+	block, results, rc, err := nd.ProposeVDF(vdf)
 	if err != nil {
 		c.Op(fmt.Sprintf("%s %s - gmp=%d", name, opName, k), "err:"+node.ErrCode(err))
 		return nil, false
